@@ -6,7 +6,9 @@ package main
 
 import (
 	"context"
+	"errors"
 	"fmt"
+	"strings"
 	"sync"
 	"sync/atomic"
 	"time"
@@ -55,6 +57,11 @@ type thread struct {
 	ctx     context.Context
 	cancel  context.CancelFunc
 	lockErr bool
+	rctx    context.Context    // OuterCancel reader context
+	unlock  context.CancelFunc // OuterCancel unlock / release func
+	inside  bool               // OuterCancel: reader between RLock return and release start
+	enterAt time.Duration
+	toldAt  time.Duration // OuterCancel: when the reader's context was first seen cancelled with the configured cause
 }
 
 type violation struct {
@@ -82,8 +89,17 @@ type run struct {
 	cm   cmap.Mutex[int]
 	lc   *lock.Context
 
+	oc        *lock.OuterCancel
+	runCancel context.CancelFunc
+	t0        time.Time
+	ticks     int
+	shutdown  bool
+	wCalls    map[int]time.Duration // pending/holding writers: time of their Lock call
+
 	hist map[string]int
 }
+
+var errOuter = errors.New("c13 outer cancel cause")
 
 func newRun(c *Case) *run {
 	r := &run{c: c, hist: map[string]int{}}
@@ -108,6 +124,21 @@ func newRun(c *Case) *run {
 		r.cm = cmap.NewMutex[int]()
 	case "context":
 		r.lc = lock.NewContext()
+	case "outer":
+		r.oc = lock.NewOuterCancel(errOuter, time.Duration(c.GraceMs)*time.Millisecond)
+		var ctx context.Context
+		ctx, r.runCancel = context.WithCancel(context.Background())
+		go r.oc.Run(ctx)
+		r.wCalls = map[int]time.Duration{}
+		r.s.extra = func(gi map[int64]gInfo) bool {
+			for _, g := range gi {
+				if strings.Contains(g.stack, "concurrency/lock.(*OuterCancel)") && !strings.Contains(g.stack, "main.(*run)") && !blockedState(g.state) {
+					return false
+				}
+			}
+			return true
+		}
+		r.t0 = time.Now()
 	}
 	return r
 }
@@ -116,6 +147,9 @@ func (r *run) header() string {
 	h := fmt.Sprintf("new prim=%s n=%d keys=%d", r.c.Prim, r.c.N, maxi(r.c.Keys, 1))
 	if r.c.Prim == "cmap" {
 		h += fmt.Sprintf(" rc=%d", cmapRC)
+	}
+	if r.c.Prim == "outer" {
+		h = fmt.Sprintf("new prim=outer n=%d grace=%d", r.c.N, r.c.GraceMs)
 	}
 	return h
 }
@@ -204,6 +238,9 @@ func (r *run) othersUse(t, k int) bool {
 
 func (r *run) opLock(t int, st Step) func() {
 	th := r.th[t]
+	if r.c.Prim == "outer" {
+		return r.outerLock(t, st)
+	}
 	return func() {
 		k, md := st.K, st.Md
 		if md == "" {
@@ -283,6 +320,9 @@ func (r *run) opLock(t int, st Step) func() {
 
 func (r *run) opUnlock(t int, st Step) func() {
 	th := r.th[t]
+	if r.c.Prim == "outer" {
+		return r.outerUnlock(t, st)
+	}
 	return func() {
 		k, md := th.k, th.md
 		r.leave(k, md)
@@ -389,7 +429,12 @@ func (r *run) valid(st Step) bool {
 	case "release":
 		return r.s.ws[st.T].parked.Load()
 	case "cancel":
+		if r.c.Prim == "outer" {
+			return th.cancel != nil && th.md == "r" && (th.ph == phInLock || th.ph == phHolding) && th.ctx.Err() == nil
+		}
 		return r.c.Prim == "context" && th.cancel != nil && th.ph == phInLock && th.ctx.Err() == nil
+	case "close":
+		return r.c.Prim == "outer" && !r.shutdown
 	case "sleep":
 		return true
 	}
@@ -413,7 +458,7 @@ func (r *run) doStep(st Step) {
 			if th.md == "" {
 				th.md = "w"
 			}
-			if r.c.Prim == "context" {
+			if r.c.Prim == "context" || r.c.Prim == "outer" {
 				th.ctx, th.cancel = context.WithCancel(context.Background())
 				if st.Ms == 1 {
 					th.cancel() // context already done when Lock is called
@@ -442,6 +487,12 @@ func (r *run) doStep(st Step) {
 	case "cancel":
 		r.s.log("env e=cancel t=%d", st.T)
 		th.cancel()
+	case "close":
+		r.s.log("env e=shutdown")
+		r.mu.Lock()
+		r.shutdown = true
+		r.mu.Unlock()
+		r.runCancel()
 	case "sleep":
 		time.Sleep(time.Duration(st.Ms) * time.Millisecond)
 	}
@@ -463,7 +514,7 @@ func (r *run) afterSettle(st []tStatus) {
 		th.status = st[t]
 		if st[t] == stBlocked && th.ph == phInLock && !th.probed && !mapSectionHeld {
 			th.probed = true
-			if r.c.Prim != "context" {
+			if r.c.Prim != "context" && r.c.Prim != "outer" {
 				r.s.log("probe t=%d p=blocked", t)
 			}
 			r.hist["blocked.confirmed"]++
@@ -471,6 +522,9 @@ func (r *run) afterSettle(st []tStatus) {
 				r.arrivals[th.k] = append(r.arrivals[th.k], t)
 			}
 		}
+	}
+	if r.c.Prim == "outer" {
+		r.outerObserve()
 	}
 	if r.c.Prim == "fifomap" {
 		// no-leak monitor: entries = keys with a holder or waiter; ilen = their number
@@ -567,8 +621,21 @@ func (r *run) execute(next func(r *run) *Step) []string {
 			}
 		}
 		if !progress {
+			waiting := false
+			for _, th := range r.th {
+				waiting = waiting || th.ph == phInLock
+			}
+			if r.c.Prim == "outer" && waiting && round < 8 {
+				if !one(Step{Do: "sleep", Ms: r.c.GraceMs + 2}) {
+					return r.s.lines
+				}
+				continue
+			}
 			break
 		}
+	}
+	if r.c.Prim == "outer" {
+		r.runCancel()
 	}
 	for t, th := range r.th {
 		if th.ph != phIdle || r.s.ws[t].busy.Load() {
